@@ -228,7 +228,7 @@ class FakeServer:
         pass
 
 
-def body_run_wsgi(I, X, method="GET", version="HTTP/1.1", lens=(1, 2), with_cl=False, via_write=False):
+def body_run_wsgi(I, X, method="GET", version="HTTP/1.1", lens=(1, 2), with_cl=False, via_write=False, cl_name="Content-Length"):
     import werkzeug.serving as srv
 
     status = X.int("status", 100, 599)
@@ -236,7 +236,7 @@ def body_run_wsgi(I, X, method="GET", version="HTTP/1.1", lens=(1, 2), with_cl=F
     total = sum(lens)
     headers = [("Content-Type", "text/plain")]
     if with_cl:
-        headers.append(("Content-Length", str(total)))
+        headers.append((cl_name, str(total)))
 
     def app(environ, start_response):
         w = start_response(pconcat(pstr(status), " X"), list(headers))
@@ -301,8 +301,10 @@ def obligations(tier, seed):
             for lens in shapes:
                 for with_cl in (False, True):
                     for via_write in (False, True):
-                        out.append({"name": f"run_wsgi[{method},{version},lens={lens},cl={with_cl},write={via_write}]", "body": "body_run_wsgi",
-                                    "params": {"method": method, "version": version, "lens": list(lens), "with_cl": with_cl, "via_write": via_write},
+                      for cl_name in (("Content-Length", "content-length", "CONTENT-LENGTH") if with_cl else ("Content-Length",)):
+                        out.append({"name": f"run_wsgi[{method},{version},lens={lens},cl={with_cl}:{cl_name},write={via_write}]", "body": "body_run_wsgi",
+                                    "params": {"method": method, "version": version, "lens": list(lens), "with_cl": with_cl, "via_write": via_write,
+                                               "cl_name": cl_name},
                                     "opts": {"budget_s": 900, "ctx": {"bv_ints": True}},
                                     "witness": lens == (1, 2) and not with_cl and not via_write})
     return out
